@@ -255,6 +255,8 @@ def observe(obj, st, exact, label, prev, hist_upto):
         nrm = tensor.fro_norm(obj)
         want = float(np.sqrt(float(st['n2'])))
         ntol = 1e-12 if exact and gk != 'tuck' else 1e-10
+        if nrm != nrm:      # NaN: independent of the action that produced the tensor
+            raise Mismatch('norm-nan kind=%s' % gk, {'history': hist_upto, 'what': 'norm() is NaN', 'expected': want})
         if not abs(nrm - want) <= ntol * max(1.0, want):
             fail('norm-mismatch', got=float(nrm), expected=want)
 
